@@ -650,6 +650,15 @@ func corpus(c *hx.Ctx, or *hx.Oracle) {
 		{Trie: t159, First: "5", Keys: []string{"5"}, Values: []string{"ff"}, Tamper: "single-element-value-forged-also-in-proof-node", Muts: []string{"child:3:c:ff"}, Shape: "corpus"},
 		// trie2: the empty-range branch recomputes no hash (root object replaced by a diverging edge)
 		{Trie: t159, First: "3", Tamper: "empty-claim-root-node-replaced", Muts: []string{"setedge:0:" + strings.Repeat("0", 251) + ":1"}, Shape: "corpus"},
+		// only the LAST element kept, first absent and leaving the trie inside the edge on which the two boundary paths
+		// fork (root edge / inner edge above a binary subtree): re-inserting the last key changes nothing, so the
+		// omission is only noticed if no proof node keeps a cached hash (the own-nodes comparison of runRange)
+		{Trie: trieCase{Hash: "ped", Height: 251, Ops: []string{"4:a", "5:b", "6:c", "7:d"}}, First: "0", Keys: []string{"7"}, Values: []string{"d"},
+			ProofKeys: []string{"0", "7"}, Tamper: "only-last-element-kept", Shape: "corpus"},
+		{Trie: trieCase{Hash: "ped", Height: 251, Ops: []string{"c:a", "d:b", "e:c", "f:d", k250p1 + ":e"}}, First: "8", Keys: []string{"f"}, Values: []string{"d"},
+			ProofKeys: []string{"8", "f"}, Tamper: "only-last-element-kept", Shape: "corpus"},
+		{Trie: trieCase{Hash: "ped", Height: 251, Ops: []string{"14:a", "15:b", "16:c", "17:d", "1:e"}}, First: "10", Keys: []string{"16", "17"}, Values: []string{"c", "d"},
+			ProofKeys: []string{"10", "17"}, Tamper: "first-element-omitted", Shape: "corpus"},
 		// a node also stored under the hash of its child: the linked structure is cyclic
 		{Trie: trieCase{Hash: "ped", Height: 251, Ops: []string{"1:a", "5:b", "9:c"}}, First: "1", Keys: []string{"1", "5", "9"},
 			Values: []string{"a", "b", "c"}, Tamper: "proof-copy", Muts: []string{"copy:1:2"}, Shape: "corpus"},
